@@ -436,6 +436,18 @@ def process(template_path, out=None, unit=None, depth=0):
             i += 1
             continue
         d, arg = m.group(1), m.group(2).strip()
+        if d == 'include-context':
+            # same as include, but the obligations of the included fragment belong to another unit: here they are context
+            if not hasattr(out, 'included'):
+                out.included = set()
+            if arg not in out.included:
+                out.included.add(arg)
+                n0 = len(out.obligations)
+                process(os.path.join(ROOT, 'contracts', arg), out, unit, depth + 1)
+                for o in out.obligations[n0:]:
+                    o['context'] = True
+            i += 1
+            continue
         if d == 'include':
             if not hasattr(out, 'included'):
                 out.included = set()
@@ -458,6 +470,12 @@ def process(template_path, out=None, unit=None, depth=0):
             bits = [b.strip() for b in re.split(r'\s+::\s+', arg, 2)]
             rel, sel = bits[0], bits[1]
             opts = bits[2].split() if len(bits) > 2 else []
+            if not hasattr(out, 'emitted_items'):
+                out.emitted_items = set()
+            if (rel, sel) in out.emitted_items:      # item-once (fragments may name the same type)
+                i += 1
+                continue
+            out.emitted_items.add((rel, sel))
             src, it = select(rel, sel)
             text = src[it.start:it.end]
             log = []
@@ -755,7 +773,8 @@ def find_arm(fb, pattern, rel, sel):
             while k >= 0:
                 jj, tt = toks[k]
                 if tt in ')]}':
-                    if depth == 0 and tt == '}':
+                    # a `}` directly before `=>` closes a struct pattern; any other `}` at depth 0 ends the previous arm
+                    if depth == 0 and tt == '}' and k != idx - 1:
                         startj = jj + 1
                         break
                     depth += 1
